@@ -37,6 +37,14 @@ claimed = {
    text="Proof obligations discharged: RuleSlice.Less orders by ascending priority number; in ProcessEvent the rules to execute are sorted exactly once before the first action is called and the sorted slice is the one that is executed; loop invariant of the execution loop: with fail-on-first-error set no action is called once an error was recorded (the error map is private to the activation); every action gets this processor, monitor, event and thread id; the setter stores the flag and the ECAL runtime provider enables it; every monitor that becomes active (Activate and Skip) was counted as active before, Finish/SetErrors report to the root exactly once, the incomplete/priorities accounting is only touched under the root monitor's lock.",
    note="Assumed (dependency krotik/common and sort.Sort, not in /repo): sort.Sort sorts by Less, sortutil.PriorityQueue pops the (priority, insertion) minimum, sortutil.IntHeap keeps its minimum first. Not decided: the dequeue order across several workers (schedule dependent), equality of HighestPriority with the minimum over active monitors as a global invariant (the per-step accounting is what is proved).",
    ref="DESIGN.md §8 C10"),
+ "C15": dict(
+   text="Proof obligations discharged for the debugger (19 functions): (cond) the running flag of an interrogation state is only read and written under the lock of its condition (SMT, ghost lock set; lock given as the path cond.L), the suspended thread's Wait is reached only through a test of the flag in the same critical section, every write that sets the flag is followed by a Broadcast issued under that lock: by the discipline argument a continue addressed to a suspended thread is never lost; a new interrogation state counts as running until the thread suspends itself; (lock) every access to the debugger's tables holds ed.lock in the required mode (writes need the write lock), lock sets balanced incl. the hand-rolled unlock/relock around nested visits; (frame) the three visit hooks write nothing reachable from the node and scope they are shown, call only reading methods of the scope, and VisitState/VisitStepOutState always return nil (transparency as a frame condition).",
+   note="Assumed: soundness of the wait/signal discipline and of lock reasoning; the interrogation command is handed over with the wake-up (written by the controller only while the thread is suspended); the interpreter passes its current node and scope. Not decided: equality of timing dependent output between debugged and plain runs; the exact suspension condition (breakpoint and stepping semantics) is not under contract.",
+   ref="DESIGN.md §8 C15"),
+ "C16": dict(
+   text="Proof: every safety obligation (nil dereference, index and slice bounds, unchecked type assertion, nil-map write, explicit assert) generated for HandleInput, all ten command handlers, AssertNumParam and every debugger method they reach (28 functions) is discharged for all argument vectors and for every debugger state satisfying the invariant established by NewECALDebugger (tables non-nil; mutex log, owners and thread pool possibly nil; call stacks possibly empty; interrogation states non-nil with node and scope), together with lock balance at every exit (no debugger lock left held) and a reachable normal exit per handler (vacuity probes).",
+   note="Assumed: library callees do not panic on non-nil arguments; call stacks hold call nodes with tokens (established by the visit hooks, assumed here); evaluation of injected expressions is C06's business; parser.ParseWithRuntime returns a tree with a runtime or an error (C07). Not decided: JSON-encodability of results; termination by inspection.",
+   ref="DESIGN.md §8 C16"),
 }
 NA_DEFAULT = "not yet claimed: contracts for this property are still being built (DESIGN.md §8); no other technique is substituted"
 na = {}
